@@ -1466,7 +1466,17 @@ func (p *parser) lowerObjectRestHelper(
 	generateTempRef := func() ast.Ref {
 		ref := p.generateTempRef(declare, "")
 		if declare == tempRefNoDeclare {
-			p.recordDeclaredSymbol(ref)
+			// Note: "generateTempRef" stores the symbol in the closest scope that
+			// stops hoisting. The symbol must be top-level if that's the module
+			// scope, even when the declaration itself is inside a nested block.
+			scope := p.currentScope
+			for !scope.Kind.StopsHoisting() {
+				scope = scope.Parent
+			}
+			p.currentPart.DeclaredSymbols = append(p.currentPart.DeclaredSymbols, js_ast.DeclaredSymbol{
+				Ref:        ref,
+				IsTopLevel: scope == p.moduleScope,
+			})
 		}
 		return ref
 	}
